@@ -59,7 +59,7 @@ func runC17(cfg config) {
 	ev := func(name string, val any) func() fhirpath.EvaluateOption {
 		return func() fhirpath.EvaluateOption { return evalopts.EnvVariable(name, val) }
 	}
-	nameID := map[string]uint64{"context": 1, "ucum": 2, "a": 10, "b": 11, "c": 12, "d": 13, "zz": 99}
+	nameID := map[string]uint64{"context": 1, "ucum": 2, "a": 10, "b": 11, "c": 12, "d": 13, "%a": 14, "%context": 15, "zz": 99}
 	mkVar := func(label, name string, val any) c17EOpt {
 		return c17EOpt{label, fmt.Sprintf("EVar %s (%s)", coqN(nameID[name]), vkindOf(val)), ev(name, val)}
 	}
@@ -76,6 +76,9 @@ func runC17(cfg config) {
 		mkVar("d=nil (unsupported)", "d", nil),
 		mkVar("b={go-string,1} (unsupported first)", "b", system.Collection{"x", system.Integer(1)}),
 		mkVar("c={{go-struct},1,s} (nested unsupported, not last)", "c", system.Collection{system.Collection{struct{}{}}, system.Integer(1), system.String("s")}),
+		mkVar("d={{},{{}}} (empty once spliced)", "d", system.Collection{system.Collection{}, system.Collection{system.Collection{}}}),
+		mkVar("%a=3 (the percent sign is part of this name: another variable)", "%a", system.Integer(3)),
+		mkVar("%context=2 (another variable, not the predefined one)", "%context", system.Integer(2)),
 		{"OverrideTime", "EOverrideTime", func() fhirpath.EvaluateOption { return evalopts.OverrideTime(time.Unix(0, 0)) }},
 	}
 	maxLen := 3
